@@ -309,7 +309,7 @@ def gen_cases(ctx, rng):
         for size in sizes_for(chunk):
             forms = spec_forms(size, chunk)
             ranges = [None] + ["bytes=" + f for f in forms]
-            ranges += ["bytes=" + rng.choice(forms) + rng.choice([",", ", ", " ,"]) + rng.choice(forms) for _ in range(two)]
+            ranges += ["bytes=" + rng.choice(forms) + rng.choice([",", ", ", " ,", ",\t", "\t, "]) + rng.choice(forms) for _ in range(two)]
             for _ in range(rnd):
                 k = rng.randrange(3, 7)
                 ranges.append("bytes=" + ",".join(rng.choice(forms) if rng.random() < 0.5 else
